@@ -526,6 +526,7 @@ func (r *Route) current() ([]netip.Prefix, error) {
 	}
 
 	var prefixes []netip.Prefix
+	seen := make(map[netip.Prefix]struct{})
 outer:
 	for _, rt := range routes {
 		// Skip IPv4 or /128s on loopbacks.
@@ -533,13 +534,19 @@ outer:
 			continue
 		}
 
-		// Prefix covered by larger prefix which is not equal to itself.
+		// Only add each route once.
+		if _, ok := seen[rt.Prefix]; ok {
+			continue
+		}
+
+		// Prefix covered by a different, shorter prefix.
 		for _, rt2 := range routes {
-			if rt.Prefix != rt2.Prefix && rt2.Prefix.Contains(rt.Prefix.Addr()) {
+			if rt2.Prefix.Bits() < rt.Prefix.Bits() && rt2.Prefix.Contains(rt.Prefix.Addr()) {
 				continue outer
 			}
 		}
 
+		seen[rt.Prefix] = struct{}{}
 		prefixes = append(prefixes, rt.Prefix)
 	}
 
